@@ -20,3 +20,13 @@ brk("c38-netstring-final-comma-checked-only-if-present", "util/netstring.py",
     "same effect written as an explicit bounds guard")
 # Not a C38 break (documented, not in BREAKS): accepting ';' as terminator (`assert data[position] in b",;"`) still
 # decodes every such buffer to the strings that were encoded -> lenient accept under DESIGN §5 C38, exit 0.
+
+# ---- round 3: twin of seeded/C38-5 (mutable container data-size bound check)
+brk("c38-mutable-data-length-bound-forgets-header", "storage/mutable.py",
+    "        if self.DATA_OFFSET + data_length > self._read_extra_lease_offset(f):",
+    "        if data_length > self._read_extra_lease_offset(f):",
+    "twin of seeded/C38-5: data size up to 468 bytes beyond the container is accepted, reads run into the lease block")
+brk("c38-mutable-data-length-bound-off-by-lease-count", "storage/mutable.py",
+    "        if self.DATA_OFFSET + data_length > self._read_extra_lease_offset(f):",
+    "        if self.DATA_OFFSET + data_length > self._read_extra_lease_offset(f) + 4:",
+    "the 4-byte extra-lease count is treated as readable share data")
